@@ -25,6 +25,11 @@ PY = '/venv/bin/python'
 SCHEMA = '/root/.vp/EVIDENCE.schema.json'
 
 
+def scaled(n):
+    'development aid: VERIF_SCALE=0.2 shrinks every case count (never used by registered commands)'
+    return max(1, int(n * float(os.environ.get('VERIF_SCALE', '1') or 1)))
+
+
 def nworkers():
     return max(2, min(14, (os.cpu_count() or 4) - 2))
 
